@@ -88,6 +88,14 @@ Definition do_add_recommend (s : st) (i : nat) (line : list Z) (ct mtime : Z) : 
   let update := update_of ct (rec_score (rec_at (s_dir s) i)) in
   if 0 <? mtime then St art' (modify_dir_lite (s_dir s) i mtime update) else St art' (s_dir s).
 
+(* ---------------------------------------------------------------- the stamp already in the entry vs. the clock
+   [mtime] above is the clock reading the file system gave the article file at the append. The entry's Modified field
+   was written earlier - by the post, an edit, an earlier comment, possibly by another host or before the clock was
+   stepped back: it may be EARLIER than, EQUAL to or LATER than [mtime]. stamp_entry is that environment operation:
+   the index as it is when entry i carries the stamp [stamp] (any 32-bit value). do_add_recommend never reads it. *)
+Definition rec_modified (r : list Z) : list Z := slice r OFF_MODIFIED 4.
+Definition stamp_entry (dir : list Z) (i : nat) (stamp : Z) : list Z := patch dir (i * REC_SZ + OFF_MODIFIED) (le32 stamp).
+
 (* ---------------------------------------------------------------- Recommend (after the permission checks of C07/C08) *)
 Definition E_PERM : Z := 1.       (* ErrNotPermitted *)
 Definition E_PARAMS : Z := 2.     (* ErrInvalidParams: the board has no articles *)
@@ -127,11 +135,15 @@ Fixpoint diff_from (a b : list Z) (off : Z) : list Z :=        (* (offset, new b
 Definition score_at (dir name : list Z) : Z :=
   match find_entry dir name (length dir / REC_SZ) with Some i => rec_score (rec_at dir i) | None => 0 end.
 
+Definition stamp_named (dir name : list Z) (stamp : Z) : list Z :=
+  match find_entry dir name (length dir / REC_SZ) with Some i => stamp_entry dir i stamp | None => dir end.
+
 Definition dump_step (name : list Z) (s : st) (r : cres) (mtime : Z) : list Z :=
   match r with
   | COk line s' =>
       let d := diff_from (s_dir s) (s_dir s') 0 in
-      [0; lenZ line] ++ line ++ [mtime; 1; lenZ line] ++ line ++ [lenZ d / 2] ++ d ++ [score_at (s_dir s') name]
+      (* returned mtime; ...; score; the article file's own mtime as the driver stats it afterwards: the same number *)
+      [0; lenZ line] ++ line ++ [mtime; 1; lenZ line] ++ line ++ [lenZ d / 2] ++ d ++ [score_at (s_dir s') name; mtime]
   | CErr e => [3; e; 0; 0]
   end.
 
@@ -225,6 +237,14 @@ Definition run_case (args : list (list Z)) : list Z :=
       let '(steps, obs) := split_at_sep rest in
       let c := Cfg (zbool al) (zbool ipl) (zbool nr) (fixlen 13 uid) (fixlen 16 ip) in
       match run_steps c (fixlen 28 name) steps obs (St art dir) with
+      | Some out => [ST_OK; lenZ steps] ++ out
+      | None => [ST_BADCASE]
+      end
+  (* [4]: as [1] on the index whose addressed entry carries the Modified stamp [stamp] (earlier or LATER than the observed mtimes) *)
+  | [4] :: [al; ipl; nr] :: dir :: name :: art :: ip :: uid :: [stamp] :: rest =>
+      let '(steps, obs) := split_at_sep rest in
+      let c := Cfg (zbool al) (zbool ipl) (zbool nr) (fixlen 13 uid) (fixlen 16 ip) in
+      match run_steps c (fixlen 28 name) steps obs (St art (stamp_named dir (fixlen 28 name) stamp)) with
       | Some out => [ST_OK; lenZ steps] ++ out
       | None => [ST_BADCASE]
       end
